@@ -7,6 +7,7 @@
 #include <igris/container/dlist.h>
 #include <igris/container/slist.h>
 #include <igris/datastruct/dlist.h>
+#include "C01_citem.h"
 #include <igris/datastruct/hlist.h>
 #include <igris/datastruct/slist.h>
 
@@ -31,12 +32,7 @@ namespace
     void erase_val(std::vector<int> &v, int x) { v.erase(std::remove(v.begin(), v.end(), x), v.end()); }
 
     // ================================================================ C dlist
-    struct CItem
-    {
-        int id;
-        int key;
-        struct dlist_head lnk;
-    };
+    // (struct CItem / struct SItem live in C01_citem.h: the C translation unit C01_c_api.c uses the same types)
     bool c_less(CItem *a, CItem *b) { return a->key < b->key; }
 
     // ops: [k, item, list, target]
@@ -133,6 +129,25 @@ namespace
                     CItem *pos;
                     dlist_for_each_entry(pos, h, lnk) ent.push_back(pos->id);
                     if (ent != m[l]) violate("C01/c-dlist-entry", "%s: dlist_for_each_entry yields %s, reference %s", when, seq(ent).c_str(), seq(m[l]).c_str());
+                    {
+                        // the same traversals and queries as expanded by the C compiler (C01_c_api.c)
+                        std::vector<int> ce((size_t)ni + 4), cr((size_t)ni + 4);
+                        int n1 = c01_c_entries(h, ce.data(), ni + 2), n2 = c01_c_entries_rev(h, cr.data(), ni + 2);
+                        if (n1 < 0 || n2 < 0) violate("C01/c-dlist-cycle", "%s: entry traversal of list %d compiled as C does not end", when, l);
+                        ce.resize((size_t)n1);
+                        cr.resize((size_t)n2);
+                        std::reverse(cr.begin(), cr.end());
+                        if (ce != m[l] || cr != m[l]) violate("C01/c-dlist-entry", "%s: compiled as C, dlist_for_each_entry / _reverse yield %s / %s, reference %s", when, seq(ce).c_str(), seq(cr).c_str(), seq(m[l]).c_str());
+                        if (c01_c_size(h) != (int)m[l].size() || !c01_c_is_correct(h) || c01_c_check(h, (int)m[l].size() + 1) != (int)m[l].size())
+                            violate("C01/c-dlist-size", "%s: compiled as C, dlist_size / dlist_is_correct / dlist_check of list %d disagree with the reference (%zu entries)", when, l, m[l].size());
+                        if (!m[l].empty())
+                        {
+                            if (c01_c_first(h) != it[m[l].front()].get() || c01_c_last(h) != it[m[l].back()].get()) violate("C01/c-dlist-entry", "%s: compiled as C, dlist_first_entry / dlist_last_entry of list %d differ from the reference", when, l);
+                            for (size_t q = 0; q + 1 < m[l].size(); q++)
+                                if (c01_c_next(it[m[l][q]].get()) != it[m[l][q + 1]].get() || c01_c_prev(it[m[l][q + 1]].get()) != it[m[l][q]].get())
+                                    violate("C01/c-dlist-entry", "%s: compiled as C, dlist_next_entry / dlist_prev_entry differ from the reference at position %zu of list %d", when, q, l);
+                        }
+                    }
                     {
                         // the entry-level accessors: reverse entry iteration, first/last entry, next/prev entry of every element
                         std::vector<int> rent;
@@ -233,12 +248,13 @@ namespace
                     // dlist_del, never initialised, left over from a re-initialised list): it only writes them
                     if (st[i] == LINKED) { done = false; break; }
                     if (st[i] == POISONED || st[i] == STALE) probe("add_of_uninitialised_or_poisoned_node");
-                    if (k == C_ADD_NEXT) { dlist_add_next(n, h); m[l].insert(m[l].begin(), i); where[i] = l; st[i] = LINKED; }
-                    else if (k == C_ADD_PREV) { dlist_add_prev(n, h); m[l].push_back(i); where[i] = l; st[i] = LINKED; }
+                    if (k == C_ADD_NEXT) { if (i & 1) c01_c_add_next(n, h); else dlist_add_next(n, h); m[l].insert(m[l].begin(), i); where[i] = l; st[i] = LINKED; }
+                    else if (k == C_ADD_PREV) { if (i & 1) c01_c_add_prev(n, h); else dlist_add_prev(n, h); m[l].push_back(i); where[i] = l; st[i] = LINKED; }
                     else if (k == C_MOVE_SORTED)
                     {
                         CItem *added = it[i].get();
-                        dlist_move_sorted(added, h, lnk, c_less);
+                        if ((i + l) & 1) c01_c_move_sorted(added, h); // (the same macro, expanded by the C compiler)
+                        else dlist_move_sorted(added, h, lnk, c_less);
                         auto pos = m[l].begin();
                         while (pos != m[l].end() && !(it[i]->key < it[*pos]->key)) ++pos;
                         m[l].insert(pos, i);
@@ -784,12 +800,6 @@ namespace
     };
 
     // ================================================================ slist (C and C++) and hlist
-    struct SItem
-    {
-        int id = 0;
-        slist_head sl;
-        hlist_node hn;
-    };
     enum { S_ADD, S_POP, S_XADD, S_XMOVE_FRONT, H_ADD_HEAD, H_ADD_AFTER, H_DEL, H_DEATH, S_DEATH, SH_N };
     const char *SH_NAME[] = {"slist_add", "slist_pop_first", "slist<>::add_first", "slist<>::move_front", "hlist_add_head", "hlist_add_after", "hlist_del", "hlist_item_death",
                              "slist_item_death"};
@@ -862,6 +872,15 @@ namespace
                     std::vector<int> e;
                     slist_for_each_entry(pos, sh[l].get(), sl) e.push_back(pos->id);
                     if (e != ms[l]) violate("C01/slist-entry", "%s: slist_for_each_entry yields %s, reference %s", when, seq(e).c_str(), seq(ms[l]).c_str());
+                    {
+                        std::vector<int> ce((size_t)ni + 4);
+                        int n1 = c01_c_slist_entries(sh[l].get(), ce.data(), ni + 2);
+                        if (n1 < 0) violate("C01/slist-cycle", "%s: slist %d traversal compiled as C does not end", when, l);
+                        ce.resize((size_t)std::max(n1, 0));
+                        if (ce != ms[l]) violate("C01/slist-entry", "%s: compiled as C, slist_for_each_entry yields %s, reference %s", when, seq(ce).c_str(), seq(ms[l]).c_str());
+                        for (int i = 0; i < ni; i++)
+                            if ((c01_c_slist_in(sh[l].get(), &it[i]->sl) != 0) != (swhere[i] == l)) violate("C01/slist-in", "%s: compiled as C, slist_in(item %d, list %d) differs from the reference", when, i, l);
+                    }
                     if (!ms[l].empty())
                     {
                         if (slist_first_entry(sh[l].get(), SItem, sl)->id != ms[l].front()) violate("C01/slist-entry", "%s: slist_first_entry of list %d differs from the reference", when, l);
@@ -926,6 +945,11 @@ namespace
                                 he.push_back(hp->id);
                             }
                             if (he != mh[l]) violate("C01/hlist-entry", "%s: hlist_for_each_entry yields %s, reference %s", when, seq(he).c_str(), seq(mh[l]).c_str());
+                            std::vector<int> ch((size_t)ni + 4);
+                            int n3 = c01_c_hlist_entries(hh[l].get(), ch.data(), ni + 2);
+                            if (n3 < 0) violate("C01/hlist-cycle", "%s: hlist_for_each_entry compiled as C does not end on list %d", when, l);
+                            ch.resize((size_t)std::max(n3, 0));
+                            if (ch != mh[l]) violate("C01/hlist-entry", "%s: compiled as C, hlist_for_each_entry yields %s, reference %s", when, seq(ch).c_str(), seq(mh[l]).c_str());
                         }
                         for (size_t q = 0; q + 1 < mh[l].size(); q++)
                             if (hlist_next_entry(it[mh[l][q]].get(), hn) != it[mh[l][q + 1]].get() || hlist_entry(&it[mh[l][q]]->hn, SItem, hn) != it[mh[l][q]].get())
@@ -951,7 +975,7 @@ namespace
                     if (!ms[l].empty() && (i & 1))
                     {
                         // the entry form of the same operation (only defined for a non-empty list)
-                        SItem *e = slist_pop_first_entry(sh[l].get(), SItem, sl);
+                        SItem *e = (l & 1) ? c01_c_slist_pop_first_entry(sh[l].get()) : slist_pop_first_entry(sh[l].get(), SItem, sl);
                         if (e != it[ms[l].front()].get()) violate("C01/slist-pop", "slist_pop_first_entry did not return the first item (%d)", ms[l].front());
                         swhere[ms[l].front()] = -1;
                         ms[l].erase(ms[l].begin());
